@@ -105,11 +105,15 @@ func init() {
 	count := func(in *Interp, fn *ssa.Function, args []Value) Value {
 		bs := in.bytesOf(args[0])
 		c := args[1].(*Term)
-		n := C(64, 0)
+		// fork per byte: the callers (Split, Count-driven loops) decide the same equalities again anyway,
+		// and a concrete count keeps 64-bit ite-sums out of the path condition
+		n := 0
 		for _, b := range bs {
-			n = Bin("bvadd", n, Ite(Eq(b, c), C(64, 1), C(64, 0)))
+			if in.decide(Eq(b, c)) {
+				n++
+			}
 		}
-		return n
+		return CI(n)
 	}
 	reg("internal/bytealg.Count", count)
 	reg("internal/bytealg.CountString", count)
@@ -180,25 +184,25 @@ func init() {
 
 	// ----- sync -----
 	reg("(*sync.Mutex).Lock", func(in *Interp, fn *ssa.Function, args []Value) Value {
-		a := in.ptrAgg(args[0])
-		in.block(func() bool { return lockFree(a.e[0]) })
-		in.setElem(a, 0, lockedMark)
+		a, i := mutexState(in.ptrAgg(args[0]))
+		in.block(func() bool { return a.e[i].(*Term).c == 0 })
+		in.setElem(a, i, lockedMark)
 		return nil
 	})
 	reg("(*sync.Mutex).TryLock", func(in *Interp, fn *ssa.Function, args []Value) Value {
-		a := in.ptrAgg(args[0])
-		if lockFree(a.e[0]) {
-			in.setElem(a, 0, lockedMark)
+		a, i := mutexState(in.ptrAgg(args[0]))
+		if a.e[i].(*Term).c == 0 {
+			in.setElem(a, i, lockedMark)
 			return tTrue
 		}
 		return tFalse
 	})
 	reg("(*sync.Mutex).Unlock", func(in *Interp, fn *ssa.Function, args []Value) Value {
-		a := in.ptrAgg(args[0])
-		if lockFree(a.e[0]) {
+		a, i := mutexState(in.ptrAgg(args[0]))
+		if a.e[i].(*Term).c == 0 {
 			in.goPanicStr("sync: unlock of unlocked mutex")
 		}
-		in.setElem(a, 0, in.zeroLike(a.e[0]))
+		in.setElem(a, i, C(32, 0))
 		return nil
 	})
 	// RWMutex{w Mutex; writerSem, readerSem uint32; readerCount, readerWait atomic.Int32}
@@ -387,6 +391,22 @@ func init() {
 }
 
 var lockedMark = C(32, 1)
+
+// mutexState locates the int32 state word of a sync.Mutex (go1.23: Mutex{state,sema};
+// go1.24: Mutex{_ noCopy; mu isync.Mutex{state,sema}}).
+func mutexState(a *Agg) (*Agg, int) {
+	if _, ok := a.e[0].(*Term); ok {
+		return a, 0
+	}
+	for _, e := range a.e {
+		if sub, ok := e.(*Agg); ok && len(sub.e) == 2 {
+			if _, ok := sub.e[0].(*Term); ok {
+				return sub, 0
+			}
+		}
+	}
+	panic(abortPath{"unrecognised sync.Mutex layout"})
+}
 
 func lockFree(v Value) bool {
 	switch x := v.(type) {
